@@ -1,3 +1,99 @@
 package main
 
-func cmdSelftest(args []string) int { return 0 }
+import (
+	"fmt"
+	"os"
+	"sort"
+	"strconv"
+	"strings"
+	"time"
+)
+
+// cmdSelftest: determinism self-test (DESIGN 2.9). For every batch of every
+// (selected) property, the first N runs are executed in several fresh
+// processes at GOMAXPROCS 1, 4 and 16 (twice); the per-run trace hashes (all
+// draws, yield sites, scheduling decisions, workload events) must be identical.
+func cmdSelftest(args []string) int {
+	n := 40
+	var props []string
+	for _, a := range args {
+		if v, err := strconv.Atoi(a); err == nil {
+			n = v
+		} else {
+			props = append(props, a)
+		}
+	}
+	if len(props) == 0 {
+		for p := range specs {
+			props = append(props, p)
+		}
+		sort.Strings(props)
+	}
+	b := newBuilder(mutantOverlay())
+	defer b.cleanup()
+	seed := envSeed()
+	bad := 0
+	for _, prop := range props {
+		spec := specs[prop]
+		if spec == nil {
+			fmt.Fprintf(os.Stderr, "no spec for %s\n", prop)
+			return 2
+		}
+		for i := range spec.Batches {
+			bt := &spec.Batches[i]
+			bin, err := b.bin(bt.Flavour, bt.Toolchain)
+			if err != nil {
+				fmt.Fprintln(os.Stderr, err)
+				return 2
+			}
+			bseed := seed*1000003 + uint64(i)
+			var ref string
+			ok := true
+			t0 := time.Now()
+			for k, gmp := range []string{"1", "4", "16", "16", "7"} {
+				env := append(append([]string{}, bt.Env...), "GOMAXPROCS="+gmp)
+				po := runProc(bin, env, 20*time.Minute, "-prop", prop, "-seed", strconv.FormatUint(bseed, 10), "-from", "0", "-to", strconv.Itoa(n), "-tier", "quick", "-cfg", cfgString(bt.Cfg), "-hashes")
+				var sb strings.Builder
+				cnt := 0
+				for _, l := range po.lines {
+					if l.K == "h" {
+						fmt.Fprintf(&sb, "%d:%s\n", l.I, l.Hash)
+						cnt++
+					}
+				}
+				if cnt == 0 {
+					fmt.Printf("selftest %s/%s: process %d produced no hashes: %v %s\n", prop, bt.Name, k, po.err, tail(po.stderr, 500))
+					ok = false
+					break
+				}
+				if k == 0 {
+					ref = sb.String()
+				} else if sb.String() != ref {
+					ok = false
+					a, c := strings.Split(ref, "\n"), strings.Split(sb.String(), "\n")
+					for j := range a {
+						if j >= len(c) || a[j] != c[j] {
+							fmt.Printf("selftest %s/%s: NONDETERMINISM at run %s (GOMAXPROCS=1) vs %s (GOMAXPROCS=%s)\n", prop, bt.Name, a[j], func() string {
+								if j < len(c) {
+									return c[j]
+								}
+								return "<missing>"
+							}(), gmp)
+							break
+						}
+					}
+					break
+				}
+			}
+			if ok {
+				fmt.Printf("selftest %s/%s: %d runs x 5 fresh processes (GOMAXPROCS 1,4,16,16,7): identical trace hashes (%.0fs)\n", prop, bt.Name, n, time.Since(t0).Seconds())
+			} else {
+				bad++
+			}
+		}
+	}
+	if bad > 0 {
+		return 2
+	}
+	return 0
+}
